@@ -1237,7 +1237,8 @@ def step2(line):
             # reverse order (all re-encoded multi-sentence messages share the slot (0, B))
 
             def through_queue():
-                for x in sents[::-1]:
+                _CYCLE_N[0] += 1
+                for x in (sents[::-1] if _CYCLE_N[0] % 2 else sents):      # alternately reversed and as emitted
                     _CYCLE_Q.put_line(x.encode('ascii'))
                 got = []
                 while True:
@@ -1246,7 +1247,7 @@ def step2(line):
                         break
                     got.append(canon_msg(g.decode()))
                 return got[0] if len(got) == 1 else '%d deliveries: %s' % (len(got), got)
-            fam['one long-lived NMEAQueue, sentences reversed'] = _try(through_queue)
+            fam['one long-lived NMEAQueue, sentences alternately reversed'] = _try(through_queue)
         return _family(fam)
     if cmd == 'reencode':
         return show_bits(getattr(M, p[1]).from_bitarray(parse_bits(p[2])).to_bitarray())
@@ -1320,6 +1321,7 @@ def _siblings(lines):
 
 
 _CYCLE_Q = Q.NMEAQueue()
+_CYCLE_N = [0]
 
 
 def _manual_encode(m, talker, chan):
